@@ -58,6 +58,10 @@ func crashChild(scn string) {
 	verifcrash.Init()
 	dir := os.Getenv("VERIF_CRASH_DIR")
 	cfgPath := filepath.Join(dir, "Hookaidofile")
+	if err := preparePath(dir, os.Getenv("VERIF_C18_PATHKIND")); err != nil {
+		fmt.Fprintln(os.Stderr, "child path setup:", err)
+		os.Exit(4)
+	}
 	if strings.HasPrefix(scn, "second:") {
 		secondChild(scn, dir, cfgPath)
 		verifcrash.Log(fmt.Sprintf("DONE %d", verifcrash.Count()))
@@ -106,16 +110,62 @@ func crashChild(scn string) {
 	os.Exit(0)
 }
 
-func spawnCrash(scn, dir string, at int) (killed bool, out string, err error) {
+func spawnCrash(scn, pathKind, dir string, at int) (killed bool, out string, err error) {
 	os.RemoveAll(dir)
 	os.MkdirAll(dir, 0o755)
-	return spawnIn(scn, dir, at)
+	return spawnIn(scn, dir, at, "VERIF_C18_PATHKIND="+pathKind)
+}
+
+// pathKinds: what kind of file system object the configured path is when the rewrite starts. The statement speaks of
+// the file the configuration is read from, i.e. of what a reader of the configured path gets; it does not depend on the
+// path being a regular file. In every kind the content is reached through <dir>/Hookaidofile.
+var pathKinds = []string{"regular", "link-same-dir", "link-other-dir", "link-absolute", "link-chain"}
+
+// preparePath builds the object at <dir>/Hookaidofile before the configuration is first written (the initial content
+// is then written through the configured path, as an operator's editor would).
+func preparePath(dir, kind string) error {
+	cfg := filepath.Join(dir, "Hookaidofile")
+	touch := func(p string) error {
+		if err := os.MkdirAll(filepath.Dir(p), 0o755); err != nil {
+			return err
+		}
+		return os.WriteFile(p, nil, 0o644)
+	}
+	switch kind {
+	case "", "regular":
+		return nil
+	case "link-same-dir": // relative link to a file next to it
+		if err := touch(filepath.Join(dir, "Hookaidofile.real")); err != nil {
+			return err
+		}
+		return os.Symlink("Hookaidofile.real", cfg)
+	case "link-other-dir": // relative link into another directory
+		if err := touch(filepath.Join(dir, "store.d", "Hookaidofile")); err != nil {
+			return err
+		}
+		return os.Symlink(filepath.Join("store.d", "Hookaidofile"), cfg)
+	case "link-absolute": // absolute link into another directory
+		if err := touch(filepath.Join(dir, "store.d", "config.txt")); err != nil {
+			return err
+		}
+		return os.Symlink(filepath.Join(dir, "store.d", "config.txt"), cfg)
+	case "link-chain": // link -> link in another directory -> file in a third
+		if err := touch(filepath.Join(dir, "store.d", "v1", "Hookaidofile")); err != nil {
+			return err
+		}
+		if err := os.Symlink(filepath.Join("v1", "Hookaidofile"), filepath.Join(dir, "store.d", "current")); err != nil {
+			return err
+		}
+		return os.Symlink(filepath.Join("store.d", "current"), cfg)
+	}
+	return fmt.Errorf("unknown path kind %q", kind)
 }
 
 // spawnIn runs the child on the directory as it is.
-func spawnIn(scn, dir string, at int) (killed bool, out string, err error) {
+func spawnIn(scn, dir string, at int, env ...string) (killed bool, out string, err error) {
 	cmd := exec.Command(os.Args[0], "-test.run", "^TestCheck$", "-test.timeout", "0")
 	cmd.Env = append(os.Environ(), "VERIF_C18_CHILD="+scn, "VERIF_CRASH_DIR="+dir, fmt.Sprintf("VERIF_CRASH_AT=%d", at), "VERIF_CRASH_LOG="+filepath.Join(dir, "side.log"), "VERIF_CRASH_LABELS=1")
+	cmd.Env = append(cmd.Env, env...)
 	var buf strings.Builder
 	cmd.Stdout, cmd.Stderr = &buf, &buf
 	if err := cmd.Start(); err != nil {
@@ -155,103 +205,118 @@ func crashPart(r *runner.Run) {
 	var shorter, longer, withLeftovers int64
 	var cmu sync.Mutex
 	for _, scn := range []string{"admin-upsert", "admin-upsert-long", "admin-delete", "mcp-write-only", "mcp-write-and-reload-fails"} {
-		d0 := filepath.Join(scratch, "c18c-"+scn+"-count")
-		killed, out, err := spawnCrash(scn, d0, 0)
-		if err != nil || killed {
-			r.Infra("%s: counting run failed: %v %s", scn, err, out)
-			continue
-		}
-		logb, _ := os.ReadFile(filepath.Join(d0, "side.log"))
-		K := 0
-		for _, l := range strings.Split(string(logb), "\n") {
-			fmt.Sscanf(l, "DONE %d", &K)
-		}
-		if K == 0 {
-			r.Infra("%s: the mutation passed no crash point (not applied?): %s", scn, logb)
-			continue
-		}
-		oldB := []byte(mgmtOld)
-		if scn == "admin-delete" {
-			oldB = []byte(strings.Replace(mgmtOld, "/m {", "/m { application app1  endpoint_name ep1 ", 1))
-		}
-		newB, _ := os.ReadFile(filepath.Join(d0, "Hookaidofile"))
-		final := "new"
-		if scn == "mcp-write-and-reload-fails" {
-			// the reload cannot succeed (no running instance): the previous content must be back at the end
-			final = "old"
-			if !bytes.Equal(newB, oldB) {
-				r.Violation("file-replace:"+scn+":not-rolled-back", fmt.Sprintf("[%s] reload failed but the previous config content was not restored", scn), map[string]any{"scenario": scn}, nil)
+		for _, pk := range pathKinds {
+			// name: the scenario as it appears in keys; the regular file keeps the keys it always had
+			name := scn
+			if pk != "regular" {
+				name = scn + ":" + pk
+			}
+			d0 := filepath.Join(scratch, "c18c-"+scn+"-"+pk+"-count")
+			killed, out, err := spawnCrash(scn, pk, d0, 0)
+			if err != nil || killed {
+				r.Infra("%s: counting run failed: %v %s", name, err, out)
 				continue
 			}
-		} else if bytes.Equal(newB, oldB) || !compiles(newB) {
-			r.Infra("%s: the uncrashed mutation did not produce a new, compiling config (%q)", scn, logb)
-			continue
-		}
-		r.Set("file-replace:"+scn, map[string]any{"crash_points": K, "final_content": final})
-		var wg sync.WaitGroup
-		jobs := make(chan int, K)
-		for n := 1; n <= K; n++ {
-			jobs <- n
-		}
-		close(jobs)
-		for w := 0; w < 8; w++ {
-			wg.Add(1)
-			go func(w int) {
-				defer wg.Done()
-				for n := range jobs {
-					dir := filepath.Join(scratch, fmt.Sprintf("c18c-%s-w%d", scn, w))
-					killed, out, err := spawnCrash(scn, dir, n)
-					if err != nil || !killed {
-						r.Infra("%s: crash point %d: child was not killed (%v) %s", scn, n, err, out)
-						continue
-					}
-					got, rerr := os.ReadFile(filepath.Join(dir, "Hookaidofile"))
-					lb, _ := os.ReadFile(filepath.Join(dir, "side.log"))
-					label := ""
-					for _, l := range strings.Split(string(lb), "\n") {
-						if strings.HasPrefix(l, "CRASH ") {
-							label = l
-						}
-					}
-					r.Add("file_replace_crash_points", 1)
-					which := "other"
-					switch {
-					case rerr != nil:
-						which = "missing"
-					case bytes.Equal(got, oldB):
-						which = "old"
-					case compiles(got) && !bytes.Equal(got, oldB) && (scn == "mcp-write-and-reload-fails" || bytes.Equal(got, newB)):
-						which = "new"
-					case scn == "mcp-write-and-reload-fails" && compiles(got):
-						which = "new"
-					}
-					r.Distinct(fmt.Sprintf("%s:%s", scn, which))
-					if which != "old" && which != "new" {
-						r.Violation("file-replace:"+scn+":"+which, fmt.Sprintf("[%s] killed at %q: the config file is %s (neither the complete old nor the complete new content): %q", scn, label, which, truncate(got)),
-							map[string]any{"engine": "crash", "scenario": scn, "crash_at": n, "label": label}, nil)
-						continue
-					}
-					// second phase: restart on the directory as it is, then a different rewrite
-					for _, kind := range secondKinds {
-						sh, left := secondPhase(r, refs, scn, filepath.Join(scratch, fmt.Sprintf("c18c2-%s-w%d", scn, w)), dir, n, label, got, kind, len(newB))
-						cmu.Lock()
-						if sh {
-							shorter++
-						} else {
-							longer++
-						}
-						if left {
-							withLeftovers++
-						}
-						cmu.Unlock()
-					}
+			logb, _ := os.ReadFile(filepath.Join(d0, "side.log"))
+			K := 0
+			for _, l := range strings.Split(string(logb), "\n") {
+				fmt.Sscanf(l, "DONE %d", &K)
+			}
+			if K == 0 {
+				r.Infra("%s: the mutation passed no crash point (not applied?): %s", name, logb)
+				continue
+			}
+			oldB := []byte(mgmtOld)
+			if scn == "admin-delete" {
+				oldB = []byte(strings.Replace(mgmtOld, "/m {", "/m { application app1  endpoint_name ep1 ", 1))
+			}
+			newB, _ := os.ReadFile(filepath.Join(d0, "Hookaidofile"))
+			final := "new"
+			if scn == "mcp-write-and-reload-fails" {
+				// the reload cannot succeed (no running instance): the previous content must be back at the end
+				final = "old"
+				if !bytes.Equal(newB, oldB) {
+					r.Violation("file-replace:"+name+":not-rolled-back", fmt.Sprintf("[%s] reload failed but the previous config content was not restored", name), map[string]any{"scenario": scn, "path_kind": pk}, nil)
+					continue
 				}
-			}(w)
+			} else if bytes.Equal(newB, oldB) || !compiles(newB) {
+				r.Infra("%s: the uncrashed mutation did not produce a new, compiling config (%q)", name, logb)
+				continue
+			}
+			r.Set("file-replace:"+name, map[string]any{"crash_points": K, "final_content": final})
+			var wg sync.WaitGroup
+			jobs := make(chan int, K)
+			for n := 1; n <= K; n++ {
+				jobs <- n
+			}
+			close(jobs)
+			for w := 0; w < 8; w++ {
+				wg.Add(1)
+				go func(w int) {
+					defer wg.Done()
+					for n := range jobs {
+						dir := filepath.Join(scratch, fmt.Sprintf("c18c-%s-w%d", scn, w))
+						killed, out, err := spawnCrash(scn, pk, dir, n)
+						if err != nil || !killed {
+							r.Infra("%s: crash point %d: child was not killed (%v) %s", name, n, err, out)
+							continue
+						}
+						got, rerr := os.ReadFile(filepath.Join(dir, "Hookaidofile"))
+						lb, _ := os.ReadFile(filepath.Join(dir, "side.log"))
+						label := ""
+						for _, l := range strings.Split(string(lb), "\n") {
+							if strings.HasPrefix(l, "CRASH ") {
+								label = l
+							}
+						}
+						r.Add("file_replace_crash_points", 1)
+						if pk != "regular" {
+							r.Add("file_replace_crash_points_path_is_a_link", 1)
+						}
+						which := "other"
+						switch {
+						case rerr != nil:
+							which = "missing"
+						case bytes.Equal(got, oldB):
+							which = "old"
+						case compiles(got) && !bytes.Equal(got, oldB) && (scn == "mcp-write-and-reload-fails" || bytes.Equal(got, newB)):
+							which = "new"
+						case scn == "mcp-write-and-reload-fails" && compiles(got):
+							which = "new"
+						}
+						r.Distinct(fmt.Sprintf("%s:%s", name, which))
+						if which != "old" && which != "new" {
+							r.Violation("file-replace:"+name+":"+which, fmt.Sprintf("[%s] killed at %q: the config file is %s (neither the complete old nor the complete new content): %q", name, label, which, truncate(got)),
+								map[string]any{"engine": "crash", "scenario": scn, "path_kind": pk, "crash_at": n, "label": label}, nil)
+							continue
+						}
+						// second phase: restart on the directory as it is, then a different rewrite (directories whose configured
+						// path was a regular file: the copy is file by file)
+						if pk != "regular" {
+							continue
+						}
+						for _, kind := range secondKinds {
+							sh, left := secondPhase(r, refs, scn, filepath.Join(scratch, fmt.Sprintf("c18c2-%s-w%d", scn, w)), dir, n, label, got, kind, len(newB))
+							cmu.Lock()
+							if sh {
+								shorter++
+							} else {
+								longer++
+							}
+							if left {
+								withLeftovers++
+							}
+							cmu.Unlock()
+						}
+					}
+				}(w)
+			}
+			wg.Wait()
 		}
-		wg.Wait()
 	}
 	r.Set("file-replace:second-rewrite-after-restart", map[string]any{"rewrites": shorter + longer, "shorter_than_the_killed_rewrite": shorter, "not_shorter": longer,
 		"started_in_a_directory_with_leftover_files": withLeftovers, "kinds": secondKinds})
+	r.Set("file-replace:path-kinds", pathKinds)
 }
 
 // ---- second phase ---------------------------------------------------------------------------------------------------
